@@ -109,7 +109,7 @@ def gen_histories(ctx, pools, n, chunk_no):
 def run(ctx):
     ctx.level = "proof"
     ctx.assumptions = [
-        "the per-node encoder is a function of (encoder context, node): the only assumption of the parametric theorems; the real parse_node is tied by the harness, not proved",
+        "the per-node encoder is a function of (encoder context, node): the only assumption of the parametric theorems. For the transcribed encoders it is PROVED (Model/EncWbxml.v: context = tagCodePage, attrCodePage, current_tag - frame over the string table, CDATA balance; Model/EncXml.v: context = indent, in_content, current_tag - CDATA balance); that the transcriptions are wbxml_encoder.c is tied by the harness after every operation of every history, not proved",
         "where the API is silent: delete_last_node removes the last node encoded with encode_node AND every raw start/end fragment encoded after it; before any node it removes everything; twice in a row the second is a no-op",
         "histories use detached nodes (encode_node on a node with a next sibling also encodes the siblings); nodes are encodable (token tags; a failing encode leaves partial output and is outside the property's domain: such histories are counted and skipped)",
         "batch = wbxml_encoder_encode_tree_to_wbxml/_to_xml of a tree whose root-level sibling chain is the remaining nodes, flow mode off, string table disabled, same charset; computed only when the remaining fragments are nodes (no raw start/end) and pairwise distinct",
